@@ -526,6 +526,21 @@ func init() {
 	stubs[p+"verifIfI64"] = func(e *Exec, th *Thread, c *CallCtx, a []Val) StubRes {
 		return ret(tIte(a[0].(*Term), a[1].(*Term), a[2].(*Term)))
 	}
+	stubs[p+"verifSameEncoded"] = func(e *Exec, th *Thread, c *CallCtx, a []Val) StubRes {
+		x, y := a[0].(*BytesV), a[1].(*BytesV)
+		return ret(tAnd(tEq(x.Nil, y.Nil), tEq(x.S, y.S)))
+	}
+	stubs[p+"verifCount"] = func(e *Exec, th *Thread, c *CallCtx, a []Val) StubRes {
+		var ts []*Term
+		for _, v := range variadicArgs(a[0]) {
+			ts = append(ts, v.(*Term))
+		}
+		cnt := mkInt(0)
+		for _, t := range ts {
+			cnt = tIntBin("+", cnt, tIte(t, mkInt(1), mkInt(0)))
+		}
+		return ret(cnt)
+	}
 	stubs[p+"verifSymbolic"] = func(e *Exec, th *Thread, c *CallCtx, a []Val) StubRes {
 		return ret(tTrue)
 	}
